@@ -42,12 +42,15 @@ func (t *tracingTransport) Submit(op *runtime.ClientOperation) (interface{}, err
 		}
 	}()
 
-	op.Params = runtime.ClientRequestWriterFunc(func(req runtime.ClientRequest, reg strfmt.Registry) error {
+	// the caller's operation is left untouched: the instrumented writer and reader go on a copy
+	traced := *op
+
+	traced.Params = runtime.ClientRequestWriterFunc(func(req runtime.ClientRequest, reg strfmt.Registry) error {
 		span = createClientSpan(op, req.GetHeaderParams(), t.host, t.opts)
 		return params.WriteToRequest(req, reg)
 	})
 
-	op.Reader = runtime.ClientResponseReaderFunc(func(response runtime.ClientResponse, consumer runtime.Consumer) (interface{}, error) {
+	traced.Reader = runtime.ClientResponseReaderFunc(func(response runtime.ClientResponse, consumer runtime.Consumer) (interface{}, error) {
 		if span != nil {
 			code := response.Code()
 			ext.HTTPStatusCode.Set(span, uint16(code)) //nolint:gosec // safe to convert regular HTTP codes, no adverse impact other than a garbled trace when converting a code larger than 65535
@@ -58,7 +61,7 @@ func (t *tracingTransport) Submit(op *runtime.ClientOperation) (interface{}, err
 		return reader.ReadResponse(response, consumer)
 	})
 
-	submit, err := t.transport.Submit(op)
+	submit, err := t.transport.Submit(&traced)
 	if err != nil && span != nil {
 		ext.Error.Set(span, true)
 		span.LogFields(log.Error(err))
